@@ -140,6 +140,13 @@ pub fn run(ctx: &Ctx) {
                     Ok(Ok(o)) if o == want => {}
                     other => ctx.violation("crc-encode-allocvec", format!("{:?} want {}", other.map(|r| r.map(|o| hex(&o))), hex(&want)), order, case()),
                 }
+                if *a == CrcAlgo::C32C {
+                    // the std convenience wrapper exists for 32-bit checksums only
+                    match trap(|| postcard::to_stdvec_crc32(&d, CRC32_C.digest())) {
+                        Ok(Ok(o)) if o == want => {}
+                        other => ctx.violation("crc-encode-stdvec", format!("{:?} want {}", other.map(|r| r.map(|o| hex(&o))), hex(&want)), order, case()),
+                    }
+                }
                 if want.len() <= 600 {
                     match trap(|| f.to_hvec::<_, 600>(&d).map(|o| o.to_vec())) {
                         Ok(Ok(o)) if o == want => {}
